@@ -1087,7 +1087,7 @@ pub fn worker_c09(shard: usize, _nshards: usize, seed: u64, tier: &str, out: &mu
     install_panic_hook();
     let corpus = gen::corpus();
     let (ncases, budget) = match tier {
-        "thorough" => (20000, 5_000_000u64),
+        "thorough" => (7000, 3_000_000u64),
         _ => (1300, 1_000_000u64),
     };
     let mut rng = Rng::new(seed, 0x9000 + shard as u64);
@@ -1334,6 +1334,81 @@ pub fn worker_c10(shard: usize, nshards: usize, seed: u64, tier: &str, out: &mut
         }
     }
     out.end();
+    // promotion endings, exhaustively: K + pawn on the seventh v K (+ one extra piece of either
+    // side next to the kings in a second pass), both colours. The only mates there are by
+    // promotion, some of them by under-promotion only (the queen stalemates).
+    out.begin(&json!({"kind":"mate-promotion","shard":shard}));
+    let mut idx = 0u64;
+    for pf in 0..8i8 {
+        for wk in 0..64u8 {
+            for bk in 0..64u8 {
+                idx += 1;
+                if idx % nshards as u64 != shard as u64 {
+                    continue;
+                }
+                let ps = o::sq(pf, 6);
+                if wk == bk || wk == ps || bk == ps {
+                    continue;
+                }
+                let mut base = Pos::empty();
+                base.b[ps as usize] = o::mk(o::PAWN, true);
+                base.b[wk as usize] = o::mk(o::KING, true);
+                base.b[bk as usize] = o::mk(o::KING, false);
+                base.white_to_move = true;
+                let mut variants = vec![base.clone()];
+                // one extra piece near the defender's king (guards or blocks flight squares)
+                let extras = if tier == "thorough" { 6 } else { 1 };
+                for _ in 0..extras {
+                    let mut q = base.clone();
+                    let (f, r) = (o::file_of(bk) + rng.below(5) as i8 - 2, o::rank_of(bk) + rng.below(5) as i8 - 2);
+                    if o::on_board(f, r) && q.b[o::sq(f, r) as usize] == o::EMPTY {
+                        let kind = *rng.pick(&[o::KNIGHT, o::BISHOP, o::ROOK, o::PAWN, o::QUEEN]);
+                        let white = rng.chance(2, 3);
+                        if kind == o::PAWN && (r == 0 || r == 7) {
+                            continue;
+                        }
+                        q.b[o::sq(f, r) as usize] = o::mk(kind, white);
+                        variants.push(q);
+                    }
+                }
+                for v in variants {
+                    for p in [v.clone(), v.mirror()] {
+                        if !p.is_sane() {
+                            continue;
+                        }
+                        out.add("positions_examined", 1);
+                        out.add("promotion_endings_examined", 1);
+                        if !seen.insert(gen::pos_key(&p)) {
+                            continue;
+                        }
+                        let m1 = solve::mate_in_1(&p);
+                        let by_promo = |ms: &[o::Mv]| ms.iter().any(|m| m.promo != 0);
+                        if !m1.is_empty() {
+                            if by_promo(&m1) {
+                                out.add("promotion_mates_in_one", 1);
+                                if m1.iter().all(|m| m.promo != 0 && m.promo != o::QUEEN) {
+                                    out.add("underpromotion_only_mates_in_one", 1);
+                                }
+                            }
+                            let root = Root { fen: fen::render6(&p, 0, 1), moves: vec![] };
+                            c10_position(out, &root, &p, &mut rng, deep);
+                        } else if p.piece_count() <= 3 || rng.chance(1, 3) {
+                            let keys = solve::mate_in_2_keys(&p);
+                            if !keys.is_empty() {
+                                if keys.iter().all(|m| m.promo != 0 && m.promo != o::QUEEN) {
+                                    out.add("underpromotion_only_mates_in_two", 1);
+                                }
+                                out.add("promotion_ending_mates_in_two", 1);
+                                let root = Root { fen: fen::render6(&p, 0, 1), moves: vec![] };
+                                c10_position(out, &root, &p, &mut rng, deep);
+                            }
+                        }
+                    }
+                }
+            }
+        }
+    }
+    out.end();
     // enumerated K+Q / K+R v K positions (mates in one and two abound, stalemates too)
     out.begin(&json!({"kind":"mate-enum","shard":shard}));
     for _ in 0..nenum {
@@ -1359,7 +1434,7 @@ pub fn run_c10(tier: &str, seed: u64) -> (Check, Agg) {
     let agg = par::run_workers("C10", tier, seed, nshards, &[], Duration::from_secs(if tier == "thorough" { 14400 } else { 1500 }), None, &[]);
     chk.evaluations = agg.c("searches");
     chk.distinct_nontrivial = agg.c("mate_in_1_positions") + agg.c("mate_in_2_positions") + agg.c("dead_roots");
-    chk.rule = "positions of check-/capture-biased random games and random K+Q/K+R v K positions are classified by the oracle's solver: mate in one (judged at limits 3,4[,5,6] and unlimited: the move played must mate), forced mate in two without mate in one (limits 5[,6,7] and unlimited: the move must keep the forced mate), no legal move (limits 1,2,3,5: no move may be announced). Unlimited runs must end by themselves (flag still up, no poll budget hit). Fresh table per search. distinct = by position key per worker; every counted position is non-trivial by construction (it has a mate or is dead).".into();
+    chk.rule = "positions of check-/capture-biased random games, random K+Q/K+R v K positions, minor-piece endings and every K + pawn-on-the-seventh v K position of both colours (plus variants with one extra piece beside the defending king; the mates there are by promotion, a few by under-promotion only) are classified by the oracle's solver: mate in one (judged at limits 3,4[,5,6] and unlimited: the move played must mate), forced mate in two without mate in one (limits 5[,6,7] and unlimited: the move must keep the forced mate), no legal move (limits 1,2,3,5: no move may be announced). Unlimited runs must end by themselves (flag still up, no poll budget hit). Fresh table per search. distinct = by position key per worker; every counted position is non-trivial by construction (it has a mate or is dead).".into();
     chk.assumptions = vec!["mates are found by the oracle's own solver, not taken from the engine".into()];
     chk.need("mate-in-one positions", agg.c("mate_in_1_positions"), 100);
     chk.need("mate-in-two positions", agg.c("mate_in_2_positions"), 20);
@@ -1367,6 +1442,8 @@ pub fn run_c10(tier: &str, seed: u64) -> (Check, Agg) {
     chk.need("stalemated roots", agg.c("stalemated_roots"), 5);
     chk.need("unlimited mate searches", agg.c("unlimited_mate_searches"), 50);
     chk.need("mates in one with minor pieces only", agg.c("minor_piece_mates_in_one"), 20);
+    chk.need("promotion endings examined", agg.c("promotion_endings_examined"), 40000);
+    chk.need("forced mates in two whose only keys are under-promotions", agg.c("underpromotion_only_mates_in_two"), 4);
     (chk, agg)
 }
 
